@@ -356,7 +356,37 @@ def run(report, p):
     lazy_reuse_rule(report, p, 'R18.8', [need(cmds, 'flatten').qual, need(cmds, 'verify').qual], 'flatten / verify -pl')
 
     # ---- rules shared with other properties (same mechanism, same rule, reported under every property it can break)
+    include_rules(report, p, 'c03', ['R3.16'], 'flatten and verify -pl must reach their exit decision')
     include_rules(report, p, 'c04', ['R4.2'], 'verify -pl finds the reference digest of a file through the `original` lookup: a flattened manifest mixes original and verified entries in format order, so the lookup must look at every entry of the record')
+    # ------------------------------------------------------------------ R18.9
+    r9 = report.rule(
+        "R18.9",
+        "a packing list is self-contained: the collection history that flatten commits into carries no generations (nothing the set-up of the collection reaches appends a hash "
+        "list to it or fills its generation list) - the commit merges `<history>.latest_ignore_patterns()` into the new manifest and numbers it after the loaded ones, so an "
+        "earlier packing list in the same destination would leak its ignore patterns (verify -pl then overlooks altered or missing files) into the new one",
+        1,
+    )
+    coll = next((f for f in p.funcs.values() if f.name == "create_collection_at_path"), None)
+    if coll is None:
+        raise AnalysisError("create_collection_at_path not found")
+    r9.instance(coll, coll.node, "create_collection_at_path")
+    bad9 = None
+    for q in sorted(p.reachable([coll.qual])):
+        f9 = p.funcs[q]
+        if q.endswith("chain_xml_parser.parse") or f9.module.name.endswith("chain_xml_parser"):
+            continue
+        for n in walk_no_nested(f9.node):
+            if isinstance(n, ast.Call) and isinstance(n.func, ast.Attribute) and n.func.attr == "append_hash_list":
+                bad9 = (f9, n, f"`{norm(n)[:60]}` loads a generation into the collection history")
+            elif isinstance(n, ast.Call) and isinstance(n.func, ast.Attribute) and n.func.attr in ("append", "extend", "insert") and norm(n.func.value).endswith(".hash_lists"):
+                bad9 = (f9, n, f"`{norm(n)[:60]}` fills the generation list of the collection history")
+            elif isinstance(n, ast.Assign) and any(isinstance(t, ast.Attribute) and t.attr == "hash_lists" and not (isinstance(t.value, ast.Name) and t.value.id == "self" and f9.name == "__init__") for t in n.targets):
+                bad9 = (f9, n, f"`{norm(n)[:60]}` sets the generation list of the collection history")
+    if bad9:
+        r9.check(False, bad9[0], bad9[1], f"{bad9[2]}: the commit of the next flatten into the same destination takes the latest loaded packing list for the previous generation and merges its <ignore> patterns into the new packing list - `verify -pl` with the new list then skips files that the flattened history records (altered or missing *.log files go unnoticed after an earlier `flatten -i '*.log'` into that destination)", construct="collection history loaded with earlier packing lists")
+    else:
+        r9.check(True, coll, coll.node, "")
+
     include_rules(report, p, 'c12', ['R12.11'], 'verify -pl takes the ignore patterns from the packing list: a flattened manifest (which never has a root hash) written without <ignore> makes it report the files the history ignores as new')
     include_rules(report, p, 'c12', ['R12.10'], 'the patterns given to flatten go into the packing list and from there into verify -pl: a pattern string taken apart into characters (`*`) makes verify -pl ignore the whole tree')
     include_rules(report, p, 'c03', ['R3.11'], 'flatten and verify -pl log every record they handle')
